@@ -158,6 +158,14 @@ func RunSeq(c *Ctx, spec SeqSpec) {
 						mu.Unlock()
 						nh := append(append([]int{}, st.hist...), oi)
 						nhs := append(append([]string{}, st.histStr...), op.String())
+						if v != nil && v.Sig == "FOREIGN" {
+							// divergence that belongs to another property's statement (DESIGN B.2)
+							mu.Lock()
+							c.Foreign++
+							mu.Unlock()
+							sys.Close()
+							continue
+						}
 						if v != nil {
 							v.World, v.Spec, v.History, v.OpIdx = spec.World, spec.Name, nhs, nh
 							if c.Report(v) {
